@@ -14,7 +14,7 @@ for p,checks in idx.items():
     if pat in p: print('mutants/'+p, ' '.join(checks))
 for m in sorted(glob.glob('seeded/*/meta.json')):
     d=os.path.dirname(m); meta=json.load(open(m))
-    if pat in d: print(d+'/patch.diff', ' '.join(meta.get('checks',[meta.get('property','')])))
+    if pat in d and not meta.get('superseded'): print(d+'/patch.diff', ' '.join(meta.get('checks',[meta.get('property','')])))
 PY
 while read patch checks; do
   git -C /repo worktree remove --force $WT 2>/dev/null; rm -rf $WT
